@@ -1304,3 +1304,121 @@ Proof.
     + rewrite Ep in *; cbn [length] in *; lia.
     + rewrite Ep; exact Hsub.
 Qed.
+
+(* ------------------------------------------------------------------ the spec-side evaluators accept the model *)
+Lemma entries_of_header_map : forall (E : Type) (es : list E),
+  entries_of (Some (Header :: map Entry es)) = Some es.
+Proof.
+  intros E es; cbn [entries_of]; induction es as [|e t IH]; cbn [map map_opt].
+  - reflexivity.
+  - rewrite IH; reflexivity.
+Qed.
+
+Lemma entries_of_write_calls : forall (E : Type) (r : wrule) (calls : list (list E)) (l : list (line E)),
+  write_calls r calls = Some l ->
+  exists es, entries_of (Some l) = Some es /\ forall e, In e es -> In (Entry e) l.
+Proof.
+  intros E r calls l H; destruct r.
+  - rewrite write_calls_PerCall in H; destruct (rev calls) as [|es t]; [discriminate|].
+    injection H as <-; exists es; split; [apply entries_of_header_map|].
+    intros e He; right; apply in_map; exact He.
+  - rewrite write_calls_PerRun in H; injection H as <-; exists (concat calls); split; [apply entries_of_header_map|].
+    intros e He; right; apply in_map; exact He.
+Qed.
+
+Lemma In_combine_l_ex : forall (A B : Type) (l : list A) (r : list B) (a : A),
+  In a l -> length l = length r -> exists b, In (a, b) (combine l r).
+Proof.
+  intros A B l; induction l as [|x t IH]; intros [|y r] a Hin Hlen; cbn [length] in Hlen; try discriminate.
+  - destruct Hin.
+  - destruct Hin as [->|Hin].
+    + exists y; left; reflexivity.
+    + injection Hlen as Hlen; destruct (IH r a Hin Hlen) as [b Hb]; exists b; right; exact Hb.
+Qed.
+
+Lemma ps_of_call_no_ps : forall (ovc : list (list (Z * list Z))) recs s p,
+  ps_of_call (map (map (fun c : Z * list Z => (fst c, (snd c, @None Z)))) ovc) recs s p = None.
+Proof.
+  intros ovc recs s p; unfold ps_of_call.
+  destruct (find _ _) as [[r calls]|] eqn:Ef; [|reflexivity].
+  apply find_some in Ef; destruct Ef as [Hin _].
+  apply in_combine_r in Hin; apply in_map_iff in Hin; destruct Hin as [oc [<- _]].
+  induction oc as [|[s' g] t IH]; cbn [map lookup fst snd]; [reflexivity|].
+  destruct (s =? s'); [reflexivity | exact IH].
+Qed.
+
+(* The boolean evaluator of "each listed recombination lies between two variants of one phase set" that the
+   harness applies to the real files accepts the recombination list of every completed well-formed model run,
+   under every rule. *)
+Theorem model_passes_spec_rec_sound : forall gr rr pr er o ids vs cs out,
+  run gr rr pr er o ids vs cs = Some out -> run_wf ids cs = true -> o_recs o = true ->
+  out_recs out <> None ->
+  spec_rec_sound cs (obs_of_out out) = true.
+Proof.
+  intros gr rr pr er o ids vs cs out Hrun Hwf Ho Hsome.
+  destruct (run_inv _ _ _ _ _ _ _ _ _ Hrun) as [rs [Hrs [_ [_ [Hr Hv]]]]].
+  unfold spec_rec_sound, obs_of_out; cbn [ob_recs ob_vcf].
+  destruct (out_recs out) as [lines|] eqn:El; [|contradiction].
+  pose proof Hr as Hr'; rewrite Ho in Hr'; cbn [requested] in Hr'; symmetry in Hr'.
+  destruct (entries_of_write_calls _ _ _ _ Hr') as [es [Hes Hin]]; rewrite Hes.
+  apply forallb_forall; intros e He.
+  destruct (recombinations_within_set _ _ _ _ _ _ _ _ _ _ e Hrun Hwf El (Hin e He))
+    as [c [i [k [child [father [mother [b [ta [ca [tb [cb
+        [Hc [Hsel [Hi [Hnth [Hch [Hcn [Hl1 [Hl2 [Hlt _]]]]]]]]]]]]]]]]]]]].
+  assert (Hlen : length cs = length (map (map (map (fun c0 : Z * list Z => (fst c0, (snd c0, @None Z))))) (out_vcf out))).
+  { rewrite map_length, Hv, map_length. apply map_opt_Forall2 in Hrs.
+    clear - Hrs; induction Hrs; cbn [length]; [reflexivity | f_equal; assumption]. }
+  destruct (In_combine_l_ex _ _ _ _ c Hc Hlen) as [ovc Hco].
+  apply existsb_exists; exists (c, ovc); split; [exact Hco|]; cbn [fst snd].
+  rewrite Hsel; cbn [andb].
+  apply existsb_exists; exists i; split; [exact Hi|].
+  unfold rec_entry_justified.
+  rewrite Hcn, Z.eqb_refl, Hl1, Hl2, Z.eqb_refl; cbn [andb].
+  assert (Htr : existsb (fun t => fst t =? ce_child e) (i_trios i) = true).
+  { apply existsb_exists; exists (child, (father, mother)); split.
+    - eapply nth_error_In; exact Hnth.
+    - cbn [fst]; rewrite Hch; apply Z.eqb_refl. }
+  rewrite Htr; cbn [andb].
+  assert (Hltb : (ce_p1 e <? ce_p2 e) = true) by (apply Z.ltb_lt; exact Hlt).
+  rewrite Hltb; cbn [andb].
+  apply in_combine_r in Hco; apply in_map_iff in Hco; destruct Hco as [ovc0 [<- _]].
+  apply forallb_forall; intros s _; rewrite !ps_of_call_no_ps; reflexivity.
+Qed.
+
+(* The boolean evaluator of "each listed read was used for phasing and is attributed to the phase set of its
+   first variant" accepts the read list of every completed well-formed model run. *)
+Theorem model_passes_spec_read_sound : forall gr rr pr er o ids vs cs out,
+  run gr rr pr er o ids vs cs = Some out -> run_wf ids cs = true -> o_reads o = true ->
+  spec_read_sound ids cs (obs_of_out out) = true.
+Proof.
+  intros gr rr pr er o ids vs cs out Hrun Hwf Ho.
+  destruct (run_inv _ _ _ _ _ _ _ _ _ Hrun) as [rs [Hrs [Hr [_ [_ Hv]]]]].
+  unfold spec_read_sound, obs_of_out; cbn [ob_reads ob_vcf].
+  rewrite Ho in Hr; cbn [requested] in Hr.
+  destruct (out_reads out) as [lines|] eqn:El; [|rewrite write_calls_PerRun in Hr; discriminate].
+  symmetry in Hr; destruct (entries_of_write_calls _ _ _ _ Hr) as [es [Hes Hin]]; rewrite Hes.
+  apply forallb_forall; intros e He.
+  destruct (read_list_entries _ _ _ _ _ _ _ _ _ _ e Hrun Hwf El (Hin e He))
+    as (c & i & r & h & v0 & rest & b & Hc & Hsel & Hi & Hrh & _ & Hv0 & H1 & H2 & H3 & H4 & H5 & H6 & H7 & H8 & H9 & H10).
+  assert (Hlen : length cs = length (map (map (map (fun c0 : Z * list Z => (fst c0, (snd c0, @None Z))))) (out_vcf out))).
+  { rewrite map_length, Hv, map_length. apply map_opt_Forall2 in Hrs.
+    clear - Hrs; induction Hrs; cbn [length]; [reflexivity | f_equal; assumption]. }
+  destruct (In_combine_l_ex _ _ _ _ c Hc Hlen) as [ovc Hco].
+  apply existsb_exists; exists (c, ovc); split; [exact Hco|]; cbn [fst snd].
+  rewrite Hsel; cbn [andb].
+  apply existsb_exists; exists i; split; [exact Hi|].
+  apply existsb_exists; exists (r, h); split; [exact Hrh|].
+  rewrite Hv0 in H6, H8.
+  unfold read_entry_justified; cbn [fst snd]; rewrite Hv0.
+  rewrite H1, H2, H3, H5, H6, H7, H8, H9, H10, !Z.eqb_refl; cbn [opt_eqb option_map andb].
+  rewrite Z.eqb_refl; cbn [andb].
+  assert (Hfam : existsb (Z.eqb (re_sample e)) (i_family i) = true).
+  { apply existsb_exists; exists (re_sample e); split; [|apply Z.eqb_refl].
+    unfold inst_members in H4; apply in_map_iff in H4; destruct H4 as [[s sp] [Hs Hm]].
+    cbn [fst] in Hs; subst s; exact (in_combine_l _ _ _ _ Hm). }
+  rewrite Hfam; cbn [andb].
+  assert (Hps : (1 + b =? b + 1) = true) by (apply Z.eqb_eq; lia).
+  rewrite Hps; cbn [andb].
+  apply in_combine_r in Hco; apply in_map_iff in Hco; destruct Hco as [ovc0 [<- _]].
+  rewrite ps_of_call_no_ps; reflexivity.
+Qed.
